@@ -18,6 +18,7 @@ def load(name):
     return json.load(open(os.path.join(schema_dir(), name)))
 
 
+ALL_KEYWORDS = object()      # pass as `enforced` to apply every translated keyword whatever the dialect
 SUPPORTED = {'type', 'properties', 'required', 'minimum', 'maximum', 'enum', 'const', 'items', 'minItems', 'maxItems',
              'description', 'format', 'units', 'default', '$schema', '$id', 'title', 'additionalProperties', 'exclusiveMinimum', 'exclusiveMaximum'}
 
@@ -35,8 +36,21 @@ def is_number(v):
     return isinstance(v, (int, float, Sym))
 
 
-def holds(schema, v):
-    """does instance v (python / z3-proxy tree) satisfy the schema?  -> bool or SymBool"""
+def enforced_keywords(root_schema):
+    """the keywords that the validator class which jsonschema.validate() selects for this schema (by its "$schema" dialect) acts on.
+    All of /repo's schemas declare draft-04, where e.g. "const" is not a keyword and is ignored; read from the installed jsonschema."""
+    import jsonschema
+    return frozenset(jsonschema.validators.validator_for(root_schema).VALIDATORS)
+
+
+def holds(schema, v, enforced=None):
+    """does instance v (python / z3-proxy tree) satisfy the schema, as the dialect it declares defines it?  -> bool or SymBool"""
+    if enforced is None:
+        enforced = enforced_keywords(schema)
+    if enforced is not ALL_KEYWORDS:
+        if isinstance(schema.get('exclusiveMinimum'), bool) or isinstance(schema.get('exclusiveMaximum'), bool):
+            raise Unsupported('draft-04 boolean exclusiveMinimum/exclusiveMaximum not translated')
+        schema = {k: val for k, val in schema.items() if k in enforced or k in ('description', 'format', 'units', 'default', '$schema', '$id', 'title')}
     unknown = set(schema) - SUPPORTED
     if unknown:
         raise Unsupported('schema keyword not translated: %s' % sorted(unknown))
@@ -87,14 +101,14 @@ def holds(schema, v):
         if 'maxItems' in schema and len(v) > schema['maxItems']:
             return False
         if 'items' in schema:
-            cs += [holds(schema['items'], x) for x in v]
+            cs += [holds(schema['items'], x, enforced) for x in v]
     if isinstance(v, dict):
         for k in schema.get('required', []):
             if k not in v:
                 return False
         for k, sub in schema.get('properties', {}).items():
             if k in v:
-                cs.append(holds(sub, v[k]))
+                cs.append(holds(sub, v[k], enforced))
         if schema.get('additionalProperties') is False:
             if set(v) - set(schema.get('properties', {})):
                 return False
